@@ -268,6 +268,7 @@ def reset_agg_state():
     _agg_ids.clear()
     _agg_facts.clear()
     _domain_facts.clear()
+    _pair_cache.clear()
 
 
 def agg_fns(sort):
@@ -301,5 +302,26 @@ def expr_id(e: NV, order_id=0):
     return _agg_ids[key][0]
 
 
+_pair_cache: dict = {}
+
+
 def agg_facts():
-    return list(_agg_facts) + [G_ROWS >= 0]
+    """facts about the abstract group; includes congruence: two row expressions that are equal on
+    every row (valid equality of their (null, value) terms) are the same column of the group"""
+    from . import core
+
+    facts = list(_agg_facts) + [G_ROWS >= 0]
+    items = list(_agg_ids.values())
+    for i in range(len(items)):
+        for j in range(i + 1, len(items)):
+            (c1, n1, v1), (c2, n2, v2) = items[i], items[j]
+            if v1.sort() != v2.sort():
+                continue
+            key = (c1.get_id(), c2.get_id())
+            if key not in _pair_cache:
+                same = z3.And(n1 == n2, z3.Implies(z3.Not(n1), v1 == v2))
+                verdict, _, _ = core.check([z3.Not(same)], timeout_ms=5000, use_cvc5=False)
+                _pair_cache[key] = verdict == "unsat"
+            if _pair_cache[key]:
+                facts.append(c1 == c2)
+    return facts
